@@ -27,7 +27,10 @@ ASSUMPTIONS = ['a change is observable as a newer mtime: every harness write adv
 TOOL = 2
 _state = {}
 SN = ['x = 1\n', 'def f(a):\n    return a\n', 'class A:\n    pass\n', 'import os\n', 'y = (\n', 'if x:\n    pass\nelse:\n    z\n',
-      '# c\n', '', 'for i in j: pass', 'x = "\\xe9"\n', '    indented\n', 'f"{a}"\n', 'try:\n    pass\nfinally:\n    pass\n']
+      '# c\n', '', 'for i in j: pass', 'x = "\\xe9"\n', '    indented\n', 'f"{a}"\n', 'try:\n    pass\nfinally:\n    pass\n',
+      # content whose tree depends on the grammar version (3.7 / 3.10 / 3.13): a foreign-version tree is visible
+      'x = (y := 1)\n', 'with (a as b): pass\n', 'try:\n    pass\nexcept* E:\n    pass\n', 'type X = int\n', 'def f[T](a): pass\n',
+      'def f(a, /): pass\n', 'print(f"{x=}")\n']
 
 
 class Clock:
@@ -82,7 +85,7 @@ class World:
         (self.root / 'sub').mkdir()
         self.files = [self.root / 'a.py', self.root / 'b.py', self.root / 'sub' / 'a.py']
         self.cds = [self.root / 'c1', self.root / 'c2']
-        self.vers = ['3.8', '3.10', '3.13']
+        self.vers = ['3.7', '3.10', '3.13']
         self.cur = {}
         self.seen = {}
 
@@ -166,9 +169,27 @@ def run_history(ctx, rng, ops=None, inject=None):
                     continue
                 if op == 'fill':
                     # push the memory cache over the eviction trigger with unrelated virtual entries
+                    # fillers live under the hashes of the real grammars (in a rotating order), as other modules of a project would
+                    hs = [parso.load_grammar(version=x)._hashed for x in w.vers]
+                    rot = len(log) % 3
+                    hs = hs[rot:] + hs[:rot]
                     for k in range(C._CACHED_SIZE_TRIGGER + 5):
-                        C._set_cache_item('filler', pathlib.Path('/virt/filler%d' % k), C._NodeCacheItem(None, [], clk.L - 5000))
-                    clk.tick(700)
+                        C._set_cache_item(hs[k % 3], pathlib.Path('/virt/filler%d' % k), C._NodeCacheItem(None, [], clk.L))
+                    clk.tick(700)      # the fillers are now older than the 10-minute survival: the next save runs the eviction
+                    if rng.random() < .7 or ops is not None:
+                        # the save that triggers the eviction, then the same unchanged file through another grammar
+                        others = [x for x in w.vers if x != v]
+                        for vv in [v, others[len(log) % 2]]:
+                            gg = parso.load_grammar(version=vv)
+                            mm = gg.parse(path=f, cache=True, cache_path=cd)
+                            w.stamp_cache()
+                            ctx.count('evaluations')
+                            ctx.count('op:parse_after_eviction')
+                            dd = sig_diff(tree_sig(mm), tree_sig(gg.parse(w.cur[f])))
+                            if dd:
+                                ctx.violation('stale_or_foreign_tree', 'after the memory-cache eviction, grammar %s on file %d: tree differs from a fresh parse: %s' % (vv, fi, dd),
+                                              wit, op='parse_after_eviction', served_from_cache=bool(_state['hit']))
+                                return
                     continue
                 if op == 'parse':
                     m = g.parse(path=f, cache=True, cache_path=cd)
